@@ -9,7 +9,7 @@ namespace Model
 /-- values that occur in `__nullable_dict__` literals -/
 inductive NullVal where
   | none | emptyList | enumMember (cls member : String)
-  deriving Repr, BEq, DecidableEq, Inhabited
+  deriving Repr, DecidableEq, Inhabited
 
 def NullVal.toPy : NullVal → PyVal
   | .none => .atom .none
@@ -30,7 +30,7 @@ structure ClassEntry where
   elemCls : Option String := none
   /-- `cls.__name__` when it differs from the table key (classes made by `extend_class`) -/
   display : Option String := none
-  deriving Repr, BEq, DecidableEq, Inhabited
+  deriving Repr, DecidableEq, Inhabited
 
 def ClassEntry.pyName (e : ClassEntry) : String := e.display.getD e.name
 
@@ -43,7 +43,7 @@ structure SchemeDef where
   base : Option String
   filtered : Option (List String)
   columns : List (String × String)
-  deriving Repr, BEq, DecidableEq, Inhabited
+  deriving Repr, DecidableEq, Inhabited
 
 def ClassTable.find (tbl : ClassTable) (n : String) : Option ClassEntry :=
   List.find? (fun e => e.name == n) tbl
